@@ -133,6 +133,47 @@ theorem set_partitions_pre_spec (divs : List Nat) (v : Nat) (naLast : Bool) (d0 
       · omega
 
 
+/-- **staged shuffle, frame level (soundness)**: every row found in output partition `p` of the staged task
+    shuffle has target `p` — for every frame/partitioning, `k ≥ 1`, `stages` with `k^stages ≥ npartitions`,
+    whether or not the number of partitions changes. -/
+theorem task_shuffle_sound (parts : List (List Row)) (nOut k S : Nat) (hk : 0 < k) (hkS : parts.length ≤ k ^ S)
+    (htarget : ∀ rows ∈ parts, ∀ r ∈ rows, r.1 < nOut)
+    (p : Nat) (out : List Row) (hout : (taskShuffle parts nOut k S)[p]? = some out) : ∀ r ∈ out, r.1 = p := by
+  intro r hr
+  unfold taskShuffle at hout
+  simp only at hout
+  split at hout
+  · rename_i hn
+    -- same number of partitions: the staged position is the target
+    have hinv := staged_inv_all (fun r => r.1 < nOut) k S parts.length hk parts htarget S (Nat.le_refl _)
+    rw [List.getElem?_take] at hout
+    split at hout
+    · rename_i hp
+      obtain ⟨hrlt, hdig⟩ := hinv p out hout r hr
+      have hde := digits_ext k S p (r.1 % parts.length) hdig
+      have hplt : p < k ^ S := by omega
+      -- the rows of the staged frame are rows of the input (targets unchanged): target < nOut = nIn
+      have hrt : r.1 % parts.length < k ^ S := Nat.lt_of_lt_of_le (Nat.mod_lt _ (by omega)) hkS
+      have h1 := fromDigits_digits k S p hplt
+      have h2 := fromDigits_digits k S (r.1 % parts.length) hrt
+      rw [hde, h2] at h1
+      rw [Nat.mod_eq_of_lt (by omega)] at h1
+      exact h1
+    · cases hout
+  · rw [List.getElem?_map] at hout
+    cases hq : (List.range nOut)[p]? with
+    | none => rw [hq] at hout; cases hout
+    | some v =>
+      have hp : p < nOut := by
+        apply Nat.lt_of_not_le; intro hcon
+        rw [List.getElem?_eq_none (by simpa using hcon)] at hq; cases hq
+      rw [List.getElem?_range hp] at hq; cases hq
+      rw [List.getElem?_range hp] at hout
+      simp only [Option.map_some, Option.some.injEq] at hout
+      subst hout
+      simpa using (List.mem_filter.mp hr).2
+
+
 /-! ### non-vacuity / concrete behaviour -/
 example : routeTuple 3 3 11 (digits 5 3 3) = digits 11 3 3 := by decide
 example : fromDigits 3 (digits 11 3 3) = 11 := by decide
